@@ -6,7 +6,8 @@ command -v java >/dev/null
 test -f /opt/veriftools/tla/tla2tools.jar
 /venv/bin/python -c "import orjson, typing_extensions"
 mkdir -p evidence replays
-for f in spec/*.tla; do
+cd spec
+for f in *.tla; do
   java -cp /opt/veriftools/tla/tla2tools.jar:/opt/veriftools/tla/CommunityModules-deps.jar tla2sany.SANY "$f" >/dev/null 2>&1 || { echo "SANY failed: $f"; exit 1; }
 done
 echo "setup ok"
